@@ -282,7 +282,7 @@ def apply_cases(draw):
     return {"adapter": "apply", "pos": draw(st.lists(kinds, max_size=3)),
             "kw": draw(st.lists(st.tuples(st.sampled_from(["a", "b", "c"]), kinds), max_size=3,
                                 unique_by=lambda t: t[0])),
-            "raises": draw(st.booleans())}
+            "raises": draw(st.booleans()), "returns": draw(st.sampled_from(["tuple", "tuple", "awaitable"]))}
 
 
 def check_apply(case):
@@ -332,8 +332,14 @@ def check_apply(case):
         log.append(("call",))
         if case["raises"]:
             raise boom
+        if case.get("returns") == "awaitable":
+            # the function's RESULT is an awaitable object (a job handle): apply resolves its arguments, what the
+            # function makes of them is handed back as it is
+            handle.append(AwaitableItem(("result-of-f",)))
+            return handle[0]
         return ("result", args, tuple(kwargs.items()))
 
+    handle = []
     with loop_mode(ctx, "hooks"):
         outcome = run(ctx, a.apply(f, *pos, **kw))
         close_orphans(ctx)
@@ -356,6 +362,9 @@ def check_apply(case):
     if case["raises"]:
         if outcome[0] != "raise" or outcome[1] is not boom:
             raise Violation("C19/apply/exception-not-propagated", repr(outcome))
+    elif case.get("returns") == "awaitable":
+        if outcome[0] != "return" or outcome[1] is not handle[0]:
+            raise Violation("C19/apply/result-differs", f"{outcome!r}: the awaitable result of f was not handed back as it is")
     elif outcome[0] != "return" or outcome[1] != ("result", args, tuple(kwargs.items())):
         raise Violation("C19/apply/result-differs", repr(outcome))
 
